@@ -60,4 +60,10 @@ CHECKS = {
              "Trusted: the harness formatters (written from the wire formats), encoding/json for decoding. Label values containing a format's separators are not checked against that format. Sampling.",
              q={"checks": 2500, "shards": 1, "timeout": 300},
              t={"checks": 20000, "shards": 16, "timeout": 1500}),
+    "C01": P("lang", "TestC01",
+             "rapid typed-grammar program generation + pattern-derived lines; differential against an independent reference interpreter after every line",
+             "Programs drawn from a typed grammar covering the constructs the statement lists are compiled with the shipped configuration and run line by line; after every line the full metric state (hidden metrics included) and the cumulative runtime-error count must equal those of a tree-walking reference interpreter written from docs/Language.md. Every generated program must be accepted.",
+             "Trusted: the reference interpreter R (appendix A of DESIGN.md) and G's static typing; constructs the reference is silent on are not generated (listed in DESIGN.md 3.1). Sampling.",
+             q={"checks": 3000, "shards": 1, "timeout": 400},
+             t={"checks": 40000, "shards": 16, "timeout": 2400}),
 }
